@@ -123,6 +123,7 @@ func scaffoldSet(sp *spaceCtx, thorough bool, shorts []int, filter func(string) 
 	for k := 0; k < 4; k++ {
 		scs = append(scs, h.ScaffoldBigPair(k))
 	}
+	scs = append(scs, h.ScaffoldBigNibble())
 	for _, s := range shorts {
 		if f := shortFiller(sp.sigma, s, false); f != nil {
 			scs = append(scs, h.ScaffoldFixed(fmt.Sprintf("short%d", s), f, "\xb0"))
